@@ -30,6 +30,11 @@ _REAL_LOCK = threading.Lock
 _REAL_RLOCK = threading.RLock
 
 
+class SimInterrupt(BaseException):
+    """The call in progress is cancelled at this line (a KeyboardInterrupt, a watchdog's
+    asynchronous exception): raised by the scheduler inside library code."""
+
+
 class CoopLock:
     """threading.Lock / RLock as seen by code imported after install_cooperative_locks()."""
 
@@ -77,7 +82,7 @@ def install_cooperative_locks():
 
 
 class Scheduler:
-    def __init__(self, pkg_dir, switches, first=0, wall=30.0, transparent=()):
+    def __init__(self, pkg_dir, switches, first=0, wall=30.0, transparent=(), interrupt=None):
         self.pkg = pkg_dir.rstrip(os.sep) + os.sep
         # pure-Python framework code without locks of its own (flamapy.core): its frames may sit
         # between library frames (Metrics.execute() calling back into FMMetrics) without making
@@ -100,6 +105,9 @@ class Scheduler:
         self.deferred = 0      # countdown expired at a point where a switch was not allowed
         self.lock_yields = 0   # a lane found a library lock taken and handed the baton on
         self.errors = []
+        # {"lane": i, "after": n}: lane i is cancelled at its n-th step (next allowed line)
+        self.interrupt = dict(interrupt) if interrupt else None
+        self.interrupted = None     # (lane, step, "file:line") once it happened
         self._arm()
 
     def _arm(self):
@@ -118,6 +126,14 @@ class Scheduler:
     def _local_trace(self, frame, event, arg):
         if event == "line" and not self.stalled:
             self.steps += 1
+            intr = self.interrupt
+            if intr is not None and intr["lane"] == self.current:
+                intr["after"] -= 1
+                if intr["after"] <= 0 and self._eligible(frame):
+                    self.interrupt = None
+                    self.interrupted = (self.current, self.steps, "%s:%d" % (
+                        os.path.basename(frame.f_code.co_filename), frame.f_lineno))
+                    raise SimInterrupt("call cancelled at step %d" % self.steps)
             if self.countdown is not None:
                 self.countdown -= 1
                 if self.countdown <= 0:
@@ -196,6 +212,8 @@ class Scheduler:
         sys.settrace(self._global_trace)
         try:
             body()
+        except SimInterrupt:
+            pass                          # the planned cancellation of this lane
         except BaseException as err:  # noqa: BLE001   (bodies catch their own exceptions)
             self.errors.append((idx, repr(err)))
         finally:
